@@ -51,6 +51,8 @@ structure World where
   normP : Str → Norm
   prepass : Str → Str
   lower : Str → Str
+  /-- `patternReadParquetCall.MatchString(ioDenylistNormalise(sql))` (56228b9) -/
+  rpCall : Str → Bool
   /-- start offsets of the patternSimpleTable matches (`FindAllStringIndex`), for the fast-path guard -/
   simpleStarts : Str → List Nat
 
@@ -89,14 +91,22 @@ def headIs (c : Char) (s : Str) : Bool := s.head? == some c
 def dotAt (rest : Str) : Bool := headIs dot rest
 /-- permission side: `isFunctionCallAt` -/
 def callAtX (rest : Str) : Bool := headIs '(' (rest.dropWhile (fun c => extractBlanks.contains c))
-/-- rewrite side: `isDotOrCallAt` -/
-def dotOrCallAtR (rest : Str) : Bool :=
-  let r := rest.dropWhile (fun c => rewriteBlanks.contains c)
+/-- rewrite side: `isDotOrCallAt` with an explicit trim set -/
+def dotOrCallAtRP (blanks : Str) (rest : Str) : Bool :=
+  let r := rest.dropWhile (fun c => blanks.contains c)
   headIs dot r || headIs '(' r
+
+/-- rewrite side: `isDotOrCallAt` (regenerated trim set; since 00bd721 it contains the line breaks too) -/
+def dotOrCallAtR (rest : Str) : Bool := dotOrCallAtRP rewriteBlanks rest
 
 /-- `extractCTENames`: lower-cased group 1 / group 2 of every match -/
 def cteNames (W : World) (t : Str) : List Str :=
   (W.findAll .cte t).flatMap (fun m => ([m.g1, m.g2].filter (· ≠ [])).map W.lower)
+
+/-- rewrite side since 73763cd: a CTE defined with a quoted name (its placeholder is in `ctes`) is also
+registered under its unquoted name -/
+def withUnquoted (W : World) (I : Idents) (ctes : List Str) : List Str :=
+  ctes ++ (I.filter (fun x => ctes.contains (W.lower x.1))).map (fun x => W.lower x.2)
 
 /-! ## permission side -/
 
@@ -154,7 +164,7 @@ def containsSub (needle : Str) : Str → Bool
 def shortCircuitLit : Str := Arc.Generated.C14.shortCircuitLiteral.toList
 /-- `getTransformedSQL`: text mentioning `read_parquet`, or neither `from` nor `join`, is executed as is -/
 def shortCircuit (W : World) (s : Str) : Bool :=
-  containsSub shortCircuitLit (W.lower s)
+  (containsSub shortCircuitLit (W.lower s) && W.rpCall s)
   || !(Arc.Generated.C14.rewriteNeeds.any (fun w => containsSub w.toList (W.lower s)))
 
 /-- the keep conditions of the two `replaceTableRefs` closures (look-ahead on the CURRENT text) -/
@@ -172,7 +182,7 @@ structure Texts where
   t3 : Str
 
 def textsNoHdr (W : World) (n : Norm) : Texts :=
-  let ctes := cteNames W n.text
+  let ctes := withUnquoted W n.idents (cteNames W n.text)
   let t1 := W.splice .dbTable n.text (fun _ => true)
   let t2 := W.splice .joinDbTable t1 (fun _ => true)
   let t3 := W.splice .simple t2 (rewriteKeeps W ctes n.idents)
@@ -180,7 +190,7 @@ def textsNoHdr (W : World) (n : Norm) : Texts :=
 
 /-- references `convertSQLToStoragePaths` turns into read_parquet paths -/
 def rewNoHdr (W : World) (n : Norm) : List Ref :=
-  let ctes := cteNames W n.text
+  let ctes := withUnquoted W n.idents (cteNames W n.text)
   let T := textsNoHdr W n
   (W.findAll .dbTable T.t0).map (dottedRef n.idents)
   ++ (W.findAll .joinDbTable T.t1).map (dottedRef n.idents)
@@ -195,17 +205,19 @@ def cteNamesHdrP (gated : Bool) (W : World) (t : Str) : List Str :=
 def cteNamesHdr (W : World) (t : Str) : List Str := cteNamesHdrP Arc.Generated.C14.headerCteGated W t
 
 def textsHdr (W : World) (n : Norm) : Texts :=
-  let ctes := cteNamesHdr W n.text
+  let ctes := withUnquoted W n.idents (cteNamesHdr W n.text)
   { t0 := n.text, t1 := n.text, t2 := n.text, t3 := W.splice .simple n.text (rewriteKeeps W ctes n.idents) }
 
 /-- slow path of `convertSQLToStoragePathsWithHeaderDB` -/
 def rewHdrSlow (W : World) (n : Norm) (hdr : Str) : List Ref :=
-  let ctes := cteNamesHdr W n.text
+  let ctes := withUnquoted W n.idents (cteNamesHdr W n.text)
   let T := textsHdr W n
   ((W.findAll .simple T.t2).filter (rewriteKeeps W ctes n.idents)).map (fun m => ⟨hdr, resolveV n.idents m.g1⟩)
   ++ ((W.findAll .joinSimple T.t3).filter (rewriteKeeps W ctes n.idents)).map (fun m => ⟨hdr, resolveV n.idents m.g1⟩)
 
 /-! ### single-table fast path (`isSingleTableQuery` + `convertSingleTableQuery`): no regex at all -/
+
+def isWordC (c : Char) : Bool := c.isAlphanum || c == '_'
 
 def countSub (needle : Str) : Str → Nat
   | [] => 0
@@ -216,7 +228,16 @@ def afterFirst (needle : Str) : Str → Option Str
   | c :: cs => if needle.isPrefixOf (c :: cs) then some ((c :: cs).drop needle.length) else afterFirst needle cs
 
 def fastNeedle : Str := Arc.Generated.C14.fastPathNeedle.toList
-def isWordC (c : Char) : Bool := c.isAlphanum || c == '_'
+
+/-- `patternJoinWord` = `\bjoin\b` on the lower-cased text (d4e5686) -/
+def hasJoinWord : Char → Str → Bool
+  | _, [] => false
+  | prev, c :: cs =>
+    (!(isWordC prev) && "join".toList.isPrefixOf (c :: cs) &&
+      (match (c :: cs).drop 4 with
+       | [] => true
+       | d :: _ => !(isWordC d)))
+    || hasJoinWord c cs
 
 /-- `isSingleTableQuery(sqlLower)`; `guarded` = the 53c9b19 guard: the extractor's own regex sees exactly one
 reference, at the offset of the substring `from `, and nothing looks like a CTE name -/
@@ -226,9 +247,9 @@ def isSingleTableP (guarded : Bool) (W : World) (l : Str) : Bool :=
     (match afterFirst fastNeedle l with
      | some r => W.simpleStarts l == [l.length - r.length - fastNeedle.length] && (W.findAll .cte l).all (fun m => m.g1.isEmpty && m.g2.isEmpty)
      | none => false)) &&
-  !(containsSub " join ".toList l) &&
+  !(hasJoinWord '\x00' l) &&
   (match afterFirst fastNeedle l with
-   | some r => !(headIs '(' (r.dropWhile (fun c => c == ' ' || c == '\t' || c == '\n')))
+   | some r => !(headIs '(' (r.dropWhile (fun c => c == ' ' || c == '\t' || c == '\r' || c == '\n')))
    | none => true)
 
 /-- the byte-level guards in front of the fast path: no quote / `$` / comment marker, no
@@ -250,9 +271,10 @@ def fastTable (W : World) (s : Str) : Option Str :=
   | some r =>
     -- same offset in the original-case text
     let off := s.length - r.length
-    let r' := (s.drop off).dropWhile (fun c => c == ' ' || c == '\t' || c == '\n')
+    let r' := (s.drop off).dropWhile (fun c => extractBlanks.contains c)   -- isWhitespace (002a8ca)
     let t := r'.takeWhile isWordC
-    if t.isEmpty || skipConv (W.lower t) then none else some t
+    -- 7134395: table functions / qualified names are left alone, as on the regex path
+    if t.isEmpty || dotOrCallAtR (r'.dropWhile isWordC) || skipConv (W.lower t) then none else some t
 
 def rewHdr (W : World) (s hdr : Str) : List Ref :=
   if fastPathTaken W s then
